@@ -14,7 +14,7 @@ SETUP = [("set", 0, "$SYS/sentinel", "s1", True), ("set", 0, "$SYS/sentinel/deep
 N_SETUP = len(SETUP)
 
 def shapes(depth):
-    firsts = ["$SYS", "?", "#", "user"]
+    firsts = ["$SYS", "?", "#", "user", "$SYSTEM"]
     conts = ["clients", uuid(1), uuid(2), "graveGoods", "lastWill", "clientName", "sentinel", "deep", "version", "?", "#", "x"]
     out = []
     for f in firsts:
@@ -98,6 +98,12 @@ def run(v, tier, seed):
     cases = []
     depth = 3 if tier == "quick" else 4
     ks = shapes(depth)
+    # the per-client entries: own id, another connected client's id, an id nobody has, a wildcard -- each field, and a level below it
+    for cid in (uuid(1), uuid(2), uuid(9), "?"):
+        for field in ("graveGoods", "lastWill", "clientName", "protocol", "address", "subscriptions", "x", "?", "#"):
+            for suffix in ("", "/x"):
+                k = f"$SYS/clients/{cid}/{field}{suffix}"
+                if k not in ks: ks.append(k)
     n = 0
     for k in ks:
         for var in request_variants(k):
